@@ -749,7 +749,7 @@ impl WriterSet {
             self.segment_size,
         )?;
 
-        let (closed_event_index, closed_partition_index, closed_stream_index) = {
+        {
             let mut indexes = self.indexes.blocking_write();
             for PendingIndex {
                 event_id,
@@ -786,25 +786,23 @@ impl WriterSet {
             let closed_partition_index = old_partition_index.close(&self.thread_pool)?;
             let closed_stream_index = old_stream_index.close(&self.thread_pool)?;
 
+            // Hand the sealed segment's indexes to the readers while the live indexes are
+            // still locked: a reader that misses in the (now empty) live indexes must already
+            // find the sealed ones, or acknowledged events and versions vanish for a moment
+            self.reader_pool.add_bucket_segment(
+                old_bucket_segment_id,
+                &old_reader,
+                Some(&closed_event_index),
+                Some(&closed_partition_index),
+                Some(&closed_stream_index),
+            );
+
             self.index_segment_id
                 .store(self.bucket_segment_id.segment_id, Ordering::Release);
-
-            (
-                closed_event_index,
-                closed_partition_index,
-                closed_stream_index,
-            )
         };
         #[cfg(feature = "verif-hooks")]
         crate::verif::pause("rollover:after-index-swap");
 
-        self.reader_pool.add_bucket_segment(
-            old_bucket_segment_id,
-            &old_reader,
-            Some(&closed_event_index),
-            Some(&closed_partition_index),
-            Some(&closed_stream_index),
-        );
         #[cfg(feature = "verif-hooks")]
         crate::verif::pause("rollover:after-sealed-installed");
         self.reader_pool
